@@ -41,7 +41,7 @@ from sim import actors, kernel, world
 DELAYS = [0.0, 0.0, 1 / 1024, 1 / 1024, 0.25, 0.3125, 2.0, 7.0]
 WAKE_LATE = [0.0, 0.0, 0.0, 1 / 1024, 0.125]
 # pre-emption windows: how much executor-thread work may happen while an actor handler sits at a shared-state read
-PREEMPT = [0.0, 0.0, 1 / 1024, 1 / 8, 1.0]
+PREEMPT = [0.0, 0.0, 1 / 1024, 1 / 64, 1 / 8]  # a handler is short: windows stay well below the wake-up intervals
 
 
 class Progress:
